@@ -161,6 +161,14 @@ def gen_scalar(r, b):
         a = {'x': x, 'l': l}
     elif b == 'Sort':
         a = {'l': g_list(r, g_type(r), 0, 6)}
+        if P(r, 60):
+            # a second built-in over the byte-identical list literal, executed right
+            # after the Sort in the same process: its value must not depend on that
+            a['then'] = r.choice(['Join', 'ArrayConcat', 'ArrayConcat', 'Size', 'Element'])
+            if a['then'] == 'Join' and any(not isinstance(x, str) for x in a['l']):
+                a['then'] = 'ArrayConcat'
+            if a['then'] == 'Element' and not a['l']:
+                a['then'] = 'Size'
     elif b == 'ArrayConcat':
         t = g_type(r)
         a = {'a': g_list(r, t, 0, 3), 'b': g_list(r, t, 0, 3)}
@@ -587,7 +595,20 @@ def check_scalar(case):
         ok = M.is_num(got) and M.num_eq(got, exp)
     else:
         ok = isinstance(got, str) and got == exp
-    return ([], info) if ok else bad('wrong_value', got)
+    if not ok:
+        return bad('wrong_value', got)
+    if b == 'Sort' and case['a'].get('then'):
+        l = case['a']['l']
+        t = case['a']['then']
+        fa = {'Join': {'l': l, 'sep': ','}, 'ArrayConcat': {'a': l, 'b': l[:1]},
+              'Size': {'l': l}, 'Element': {'l': l, 'i': 0}}[t]
+        f2, i2 = check_scalar({'kind': 'scalar', 'b': t, 'a': fa})
+        info['runs'] += i2.get('runs', 1)
+        info['then'] = t
+        if f2:
+            return [('after_Sort:' + bk, 'executed right after %s\n%s' % (text, d))
+                    for bk, d in f2], info
+    return [], info
 
 
 def parse_once(text, nfacts):
